@@ -213,7 +213,11 @@ func genSpec(r *vh.Rand, o genOpts) (tables, reqs, scens string, info genInfo) {
 			hx = append(hx, vh.HexS(s))
 		}
 		name := fmt.Sprintf("s%d", i)
-		ss = append(ss, fmt.Sprintf("%s,%s,%s", name, wf, strings.Join(hx, ":")))
+		mw := ""
+		if r.Chance(1, 3) {
+			mw = fmt.Sprintf(",%d", r.PickInt([]int{3, 10, 25, 40}))
+		}
+		ss = append(ss, fmt.Sprintf("%s,%s,%s%s", name, wf, strings.Join(hx, ":"), mw))
 	}
 	scens = strings.Join(ss, ";")
 	if nscen == 1 {
@@ -322,6 +326,22 @@ func gen(r *vh.Rand, tier string) []string {
 			script = genScript(r, 40)
 		}
 		out = append(out, fmt.Sprintf("shot %d %s %s %s %s", n, script, t, rq, sc))
+	}
+	// fault sweep: the same description, one fault of every kind at every arrival position
+	for i := 0; i < 12*mul; i++ {
+		t, rq, sc, info := genSpec(r, genOpts{})
+		n := info.ringLen
+		if n > 3 {
+			n = 3
+		}
+		if n < 2 {
+			n = 2
+		}
+		for k := 0; k < 5; k++ {
+			for _, act := range []string{"g", "t", "s500", "n", "h"} {
+				out = append(out, fmt.Sprintf("shot %d %d:%s %s %s %s", n, k, act, t, rq, sc))
+			}
+		}
 	}
 	for i := 0; i < 12*mul; i++ {
 		out = append(out, genInst(r))
